@@ -14,7 +14,7 @@ EXCL = {
  'C14': 'IEEE rounding (f32 twins model f32 literals and tolerances, not f32 rounding); the 1e-5 rad clause on the nlerp hand-over path',
  'C15': 'IEEE rounding; from_arc tolerance outside lengths [1e-3, 1e3] (known finding)',
  'C16': 'element types outside the table; the quick tier samples element types',
- 'C17': 'programs are sampled (20 / 400 per seed); folds beyond 9 items (products beyond 5-6 factors); calls that end in std's un-inlined generic iterator code are inconclusive', 'C18': 'the scalar relations themselves (approx crate) are opaque atoms with a contract; the value of the default tolerances',
+ 'C17': 'programs are sampled (20 / 400 per seed); folds beyond 9 items (products beyond 5-6 factors); calls that end in un-inlined generic iterator code of std are inconclusive', 'C18': 'the scalar relations themselves (approx crate) are opaque atoms with a contract; the value of the default tolerances',
  'C19': 'quick tier: 24 of 144 pairs', 'C20': 'text formats (serde_json float printing)'}
 rows = []
 for f in sorted(glob.glob(os.path.join(V, 'evidence', 'C*.json'))):
